@@ -410,7 +410,7 @@ where
         // to be very big. We will hit the end of file if it was during
         // reading, so I don’t think we need any additional measures?
         let mut res = HashMap::with_capacity(
-            cmp::max(len, 65536)
+            cmp::min(len, 65536)
         );
         
         for _ in 0..len {
